@@ -31,10 +31,7 @@ def run(ctx):
     # E1 + E2 + E3 ---------------------------------------------------------------------------
     tr_cover = fc.cover_replay(ctx, exe, 'cover', WHAT, fixed=fixed)
     ctx.sample_trace(tr_cover, 14, skip=8)
-    for name, label in (('exc', 'throwing functor, continuation on the manual queue'),
-                        ('pool', 'abstract pool, 1 worker: placed future, getter vs wait_for(0)'),
-                        ('newthread', 'NewThreadInvoker thread vs two waiters')):
-        fc.model(ctx, name, WHAT, label)
+    fc.model(ctx, 'g18', WHAT, 'throwing functor + continuation | abstract pool with 1 worker | NewThreadInvoker thread')
     if thorough:
         fc.model(ctx, 'three', WHAT, '3 handle-holding threads + runner: get / wait / wait_for(0) / copy / destroy', timeout=2400)
 
@@ -44,10 +41,9 @@ def run(ctx):
     progs_q = [fc.gen.MC['three'], fc.gen.MC['exc']] + [fc.gen.random_program(rng, 'q') for _ in range(nq)]
     progs_p = [fc.gen.random_program(rng, 'pool') for _ in range(npool)]
     ctx.sample({'programs': progs_q[2:4] + progs_p[:3]})
-    fc.run_and_validate(ctx, exe, progs_q, WHAT, 'random programs, manual queue + ImmediateInvoker', n=8 if thorough else 4,
-                        seed=ctx.seed, pct=3, spurious=True, fixed=fixed)
-    tr = fc.run_and_validate(ctx, exe, progs_p, WHAT, 'random programs, real ThreadPool TaskSet NewThreadInvoker',
-                             n=8 if thorough else 3, seed=ctx.seed + 1, pct=3, fixed=fixed)[0]
+    tr = fc.run_and_validate(ctx, exe, progs_p + progs_q, WHAT,
+                             'random programs: real ThreadPool TaskSet NewThreadInvoker | manual queue ImmediateInvoker',
+                             n=8 if thorough else 3, seed=ctx.seed, pct=3, spurious=True, fixed=fixed)[0]
     if tr:
         ctx.sample_trace(tr, 10, skip=30)
     if thorough:
